@@ -1,5 +1,13 @@
-import os, sys, base64, codecs
+import os, sys, base64, codecs, resource
+import vf
 from vf import Check, Stream, hexs
+# the extracted reference functions recurse once per list element: 270 000 characters of base64 need more than 8 MB of stack
+try:
+    _soft, _hard = resource.getrlimit(resource.RLIMIT_STACK)
+    _want = 1 << 30
+    resource.setrlimit(resource.RLIMIT_STACK, (_want if _hard == resource.RLIM_INFINITY else min(_want, _hard), _hard))
+except (ValueError, OSError):
+    pass
 sys.path.insert(0, os.path.join(os.path.dirname(os.path.abspath(__file__)), '..', 'gen'))
 import tables
 
@@ -115,6 +123,31 @@ class C18(Check):
     def gen_tables(self):
         return [tables.gen_codec()]
 
+    # ---- a tree on which (almost) every case ends in a sanitizer report: each report restarts the harness; give up on a
+    # stream after 150 of them and report what was seen until then (the cases not run are dropped by vf) ---------------
+    CRASH_CAP = 150
+
+    def run_impl(self, cases, tag='impl'):
+        rundir = os.path.join(vf.BUILD, self.id, 'run')
+        res, crashes, i, total = [], {}, 0, 0
+        while i < len(cases):
+            size = 400 if total == 0 else 60
+            part = cases[i:i + size]
+            if total >= self.CRASH_CAP:
+                res += [['! notrun'] for _ in part]
+            else:
+                r, c = vf.run_exe_on_cases(self.exes['impl'], part, rundir, tag, is_impl=True, per_case_timeout=self.per_case_timeout,
+                                           env={'ASAN_OPTIONS': 'detect_leaks=0:abort_on_error=0:allocator_may_return_null=1:max_allocation_size_mb=2048'
+                                                                + (':symbolize=0' if total > 20 else '')})
+                res += r
+                for k, v in c.items():
+                    crashes[i + k] = v
+                total += len(c)
+            i += size
+        if total >= self.CRASH_CAP:
+            vf.log('[C18] stream %s: %d harness crashes, %d cases not run' % (tag, total, sum(1 for o in res if o == ['! notrun'])))
+        return res, crashes
+
     # ---- non-triviality ------------------------------------------------------------------
     def nontrivial(self, case, obs):
         for l in case:
@@ -128,7 +161,7 @@ class C18(Check):
             elif o == 'u8encn':
                 if a != '-' and any(int(x) >= 0x80 for x in a.split(',')):
                     return True
-            elif o in ('u8dec', 'u8valid'):
+            elif o in ('u8dec', 'u8valid', 'u8deca', 'u8valida'):
                 if a != '-' and any(b >= 0x80 for b in bytes.fromhex(a)):
                     return True
             elif o in ('u8sw', 'b64sw'):
@@ -360,6 +393,107 @@ class C18(Check):
                 e += b'===='[:rng.randrange(1, 5)]
             ops.append('b64 ' + hexs(e))
         out.append(Stream('b64_malformed', chunk(ops, 25), note='one mutation of an RFC 4648 encoding: foreign character, byte >= 0x80, truncation, insertion, other alphabet character, extra padding'))
+
+        # -- readers on LONG inputs (beyond any block size / word-at-a-time / small-buffer threshold a rewrite might bring):
+        #    mostly ASCII, every length mod 8 around 64, 128, 256; the non-ASCII part at the start, in the middle, as the last
+        #    1-4 bytes, a truncated final sequence, an invalid byte as the very last one - on exactly sized blocks through the
+        #    pointer overloads, the String overloads and the String overloads on an attached (non-owning) String
+        ops = []
+        lens = sorted(set(list(range(56, 74)) + [95, 96, 97, 120, 127, 128, 129, 191, 200, 255, 256, 257, 300, 511, 512, 513]
+                          + (list(range(74, 140)) + [1023, 1024, 1025, 4095, 4096, 4097] if thorough else [])))
+        for n in lens:
+            base = bytes(rng.randrange(0x20, 0x7f) for _ in range(n))
+            cp3, cp2, cp4 = rng.randrange(0x800, 0x10000), rng.randrange(0x80, 0x800), rng.randrange(0x10000, 0x110000)
+            var = [base]
+            for e in (self.enc(cp2), self.enc(cp3), self.enc(cp4)):
+                var.append(base[:n - len(e)] + e)                           # complete sequence as the last bytes
+                var.append(base[:n - len(e) + 1] + e[:-1])                  # the same sequence, cut one byte short, at the very end
+                var.append(e + base[len(e):])                               # non-ASCII first, ASCII behind it
+                k = n // 2 + rng.randrange(8)
+                var.append(base[:k] + e + base[k + len(e):])                # in the middle, at some offset mod 8
+            var.append(base[:n - 1] + bytes([rng.choice([0xe2, 0xf0, 0xc3])]))        # a lead byte as the last byte
+            var.append(base[:n - 1] + bytes([rng.choice([0x80, 0xbf, 0xff, 0xf8])]))  # an impossible byte as the last byte
+            var.append(base[:n - 2] + bytes([0xe2, 0x82]))
+            var.append(base[:n - 3] + bytes([0xf0, 0x9f, 0x98]))
+            for v in var:
+                assert len(v) == n
+                ops.append('u8valid ' + hexs(v))
+                ops.append('u8valida %s -' % hexs(v))
+            for v in (var[3], var[7], var[11], var[0]):
+                ops.append('u8dec ' + hexs(v))
+                ops.append('u8deca %s -' % hexs(v))
+        big = []
+        for n in ((65531, 65536, 65537, 70001) if not thorough else (32767, 32768, 65531, 65535, 65536, 65537, 70001, 131073, 200003)):
+            base = bytes(0x20 + (i * 7 + n) % 0x5f for i in range(n))
+            e = self.enc(0x20ac)
+            big.append('u8valid ' + hexs(base[:n - 3] + e))                       # valid, the multi-byte sequence ends the range
+            big.append('u8valid ' + hexs(base[:n - 2] + e[:2]))                   # the same cut short: the announced byte is not there
+            big.append('u8valida %s -' % hexs(base[:n // 2] + e + base[n // 2 + 3:n - 1] + b'\xff'))
+        out.append(Stream('readers_long', chunk(ops, 40) + chunk(big, 1),
+                          note='mostly-ASCII text of %d lengths from 56 to %d bytes (every length mod 8 around 64), non-ASCII first / in the middle / as the last '
+                               'bytes / cut short at the end / impossible last byte, on exactly sized blocks: pointer overload, String overload, attached '
+                               'String; texts of %s bytes' % (len(lens), lens[-1], '65531..70001' if not thorough else '32767..200003')))
+
+        # -- the String overloads on attached (non-owning) Strings: window ++ tail in one exactly sized block -----------
+        ops = []
+        short = [b''] + [bytes([b]) for b in range(256)] + [bytes([a, b]) for a in U8_ALPHA for b in U8_ALPHA]
+        if thorough:
+            short += [bytes([a, b, c]) for a in U8_ALPHA if a >= 0xc0 for b in U8_ALPHA for c in U8_ALPHA]
+        else:
+            short += [bytes([a, b, c]) for a in (0xc2, 0xe0, 0xe2, 0xed, 0xf0, 0xf4, 0xf8) for b in (0x41, 0x80, 0xbf, 0xc0) for c in (0x00, 0x7f, 0x80, 0xbf, 0xe2)]
+        for w in short:
+            ops.append('u8deca %s -' % hexs(w))
+            ops.append('u8valida %s -' % hexs(w))
+        # a window that ends inside a sequence, the missing bytes right behind it: a reader that trusts a terminator or the
+        # announced length instead of the String's length decodes / accepts the whole sequence
+        for _ in range(1500 if thorough else 250):
+            cps = self.utf8_text(rng, rng.randrange(1, 6))
+            e = b''.join(self.enc(c) for c in cps)
+            last = self.enc(cps[-1])
+            cut = rng.randrange(0, len(last)) if len(last) > 1 and rng.random() < 0.7 else 0
+            w, tl = (e[:len(e) - cut], e[len(e) - cut:]) if cut else (e, b'')
+            tl = tl + rng.choice([b'', b'\x00', b'\x80', b'\xbf\xbf\xbf', b'A', b'\xe2\x82\xac'])
+            ops.append('u8valida %s %s' % (hexs(w), hexs(tl)))
+            k = rng.randrange(len(w)) if w else 0
+            ops.append('u8deca %s %s' % (hexs(w[k:]), hexs(tl)))
+        out.append(Stream('readers_attached', chunk(ops, 64),
+                          note='fromString(const String&) / isValid(const String&) on a String attached to a window of an exactly sized block: every window of '
+                               'length <= 1, class alphabet^2, lead bytes x classes for length 3 with nothing behind the window; windows cut inside a '
+                               'sequence with the missing bytes (or NUL, continuation bytes, another character) right behind them'))
+
+        # -- hex / base64 / toString(data, size) at sizes around 2^7, 2^8, 2^13, 2^15, 2^16 (index or length kept in a narrower type) ----
+        ops = []
+        for n in [127, 128, 129, 255, 256, 257, 8191, 8192, 8193, 32767, 32768, 32769, 65535, 65536, 65537] + ([100000, 200000] if thorough else []):
+            ops.append('hex ' + hexs(bytes((i * 37 + n + (i >> 8)) & 0xff for i in range(n))))
+        ops.append('hex ' + hexs(bytes(rng.randrange(256) for _ in range(rng.randrange(8193, 20000)))))
+        for n in [190, 191, 192, 193, 49150, 49151, 49152, 49153, 65534, 65535, 65536, 65537, 70000] + ([98304, 99999, 200000] if thorough else []):
+            ops.append('b64 ' + hexs(b64enc(bytes((i * 37 + n + (i >> 8)) & 0xff for i in range(n)))))
+        ops.append('b64 ' + hexs(b64enc(bytes(rng.randrange(256) for _ in range(rng.randrange(65536, 90000))))))
+        for n in [64, 70, 199, 200, 201, 300, 1000] + ([20000, 70000] if thorough else [5000]):
+            ops.append('u8encn ' + ','.join(map(str, self.utf8_text(rng, n))))
+        ops.append('u8encn ' + ','.join(str(0x10000 + (i * 4099) % 0x100000) for i in range(300)))   # 4-byte sequences only: 1200 bytes into a String reserved for 500
+        out.append(Stream('long_inputs', chunk(ops, 1),
+                          note='fromHex of 127..65537 bytes (8191/8192/8193, 2^15+-1, 2^16+-1%s), fromBase64 of the RFC 4648 encodings of 190..70000 bytes (input '
+                               'length around 2^8 and 2^16: 49150..49153 bytes; output length around 2^16: 65534..65537 bytes%s), toString(data, size) of 64..%d code '
+                               'points (beyond the size+200 bytes it reserves)' % ((', 100000, 200000', ', 98304, 99999, 200000', 70000) if thorough else ('', '', 5000))))
+
+        # -- the member conversions on attached Strings: the digits go on right behind the window ---------------------------
+        ops = []
+        tails = [b'0', b'7', b'99', b'\x00', b'\x0099', b' ', b'x', b'\xff', b'-', b'12345678901234567890']
+        for name, lo, hi in INT_TYPES:
+            vals = {lo, hi, 0, 1, 9, 10, 12, lo + 1, hi - 1, hi // 10, lo // 10, hi // 10 + 1}
+            for _ in range(300 if thorough else 40):
+                vals.add(rng.randrange(lo, hi + 1))
+                vals.add(rng.randrange(-10 ** rng.randrange(1, 19), 10 ** rng.randrange(1, 19)))
+            for v in sorted(x for x in vals if lo <= x <= hi):
+                for tl in ([rng.choice(tails), rng.choice(tails[:3])] if not thorough else tails):
+                    ops.append('to%sa %s %s' % (name, hexs(str(v).encode()), hexs(tl)))
+            for w in (b'', b'-', b'+', b' ', b' 4', b'+4', b'-0', b'007', b'4 ', b'4x', b'12\x0034'):
+                for tl in (b'2', b'\x00', b'\x002', b'x'):
+                    ops.append('to%sa %s %s' % (name, hexs(w), hexs(tl)))
+        out.append(Stream('int_attached', chunk(ops, 60),
+                          note='toInt/toUInt/toInt64/toUInt64 on a String attached to a window of a block: boundary and random values, the block going on with '
+                               'digits / NUL / NUL and digits / white space / other bytes right behind the window (one readable byte there is the precondition)'))
 
         # -- integers: boundaries and random values ---------------------------------------------------
         ops = []
